@@ -27,6 +27,7 @@ RULESETS = {
     "C08": "c08",
     "C10": "c10",
     "C11": "c11",
+    "C12": "c12",
     "C13": "c13",
     "C14": "c14",
     "C15": "c15",
@@ -34,6 +35,7 @@ RULESETS = {
     "C17": "c17",
     "C18": "c18",
     "C19": "c19",
+    "C20": "c20",
 }
 
 
